@@ -227,7 +227,12 @@ def check_functional(case, ctx):
         for call in ((True,) if case["defaults"] else (True, False)):
             label = "C12/fn/" + name
             with ctx.sut(label):
-                out = fn(x) if case["defaults"] else fn(x, call=call, strike=strike)
+                if case["defaults"]:
+                    out = fn(x)
+                elif N % 2:  # documented positional order (input, call, strike); the table is the oracle's, not read from the code
+                    out = fn(x, call, strike)
+                else:
+                    out = fn(x, call=call, strike=strike)
             if not ctx.check(tuple(out.shape) == shape, label + "/shape", f"shape {tuple(out.shape)} != {shape} for input {tuple(x.shape)}"):
                 continue
             if lead == 2 and not ctx.check(torch.equal(out[1], out[0].flip(0)), label + "/batch", "leading batch dimension not treated elementwise"):
@@ -242,7 +247,9 @@ def check_functional(case, ctx):
     si, ei = case["start_index"], case["end_index"]
     label = "C12/fn/forward_start"
     with ctx.sut(label):
-        if ei is None:
+        if ei is None and N % 2:
+            out = F.european_forward_start_payoff(x, strike, si)  # documented order (input, strike, start_index, end_index)
+        elif ei is None:
             out = F.european_forward_start_payoff(x, strike=strike, start_index=si)
         else:
             out = F.european_forward_start_payoff(x, strike=strike, start_index=si, end_index=ei)
